@@ -32,6 +32,7 @@ HllLen(e) ==
 
 SizeOK(e) ==
   CASE e.fam = "hll"   -> /\ e.len = HllLen(e)
+                          /\ ("maxk" \in DOMAIN e => e.lgk <= e.maxk)      \* a union result: no finer than lg_max_k
                           /\ (e.mode = "list" => e.count < 8)
                           \* (a sketch that started from a decoded coupon-set image keeps a table no larger than
                           \* the larger of the configuration's and the image's, lgarr0)
